@@ -13,6 +13,7 @@ fn quick(part: &Part) -> bool {
 }
 
 fn run_seq(part: &mut Part, profiles: Vec<Profile>, mons: Vec<Monitors>) {
+    self_checks(&profiles, part);
     let mut descr = vec![];
     for p in &profiles {
         descr.push(p.describe());
@@ -31,6 +32,7 @@ fn run_seq(part: &mut Part, profiles: Vec<Profile>, mons: Vec<Monitors>) {
 }
 
 fn run_crash(part: &mut Part, profiles: Vec<Profile>, cfgs: Vec<CrashCfg>) {
+    self_checks(&profiles, part);
     let mut descr = vec![];
     for p in &profiles {
         descr.push(p.describe());
@@ -133,6 +135,14 @@ pub fn run(part: &mut Part) {
                 .collect();
             part.extra.insert("hash_seed_orders".into(), json!(seeds_hash));
             run_seq(part, profiles, mons);
+            // queue names longer than a block (real geometry: the maximum, 65535 bytes)
+            let long = if TINY { "N".repeat(BLOCK + 6) } else { "N".repeat(65535) };
+            let names = vec![long, "b".to_string(), "zz".to_string(), "f".to_string()];
+            let lprofiles = vec![prof("empty x A_roll, queue a has a name longer than a block", vec![seed_empty()], a_roll(), if TINY { if q { 3 } else { 4 } } else if q { 2 } else { 3 })];
+            let lmon = Monitors { property: "C01", names: Some(names), conformance: true, reopen_state: true, final_reopen: true, final_appends: true, ..Default::default() };
+            let b0 = part.bounds.clone();
+            run_seq(part, lprofiles, vec![lmon]);
+            part.bounds = json!({"short_names": b0, "long_names": part.bounds.clone()});
             part.rule = "every op sequence of the stated depth over the alphabet (Reopen = clean drop + open is a letter, so restarts are inserted at every point), after every seed, for each hasher seed; the observable state (queue set, positions, payload bytes, next position) is compared with the reference model after every Reopen and after a final Reopen, followed by one auto append per queue; distinct_nontrivial = distinct (model state, number of WAL files, seed) at which a restart was checked".into();
             part.require_outcomes(&["restarts_checked", "reopened", "deleted", "truncated-n"]);
         }
@@ -160,7 +170,16 @@ pub fn run(part: &mut Part) {
                 .collect();
             part.extra.insert("hash_seed_orders".into(), json!(seeds_hash));
             run_seq(part, profiles, mons);
-            part.rule = "SEQ part: every op sequence of the stated depth after seeds in which a queue is empty/idle while its files are rolled over and deleted; model-free monitor per queue incarnation: every assigned position exceeds every position appended or truncated-to before, automatic positions continue exactly from it, also after Reopen and in the final Reopen + append on every queue".into();
+            // crash part: after recovery from any crash point no position handed out or truncated-to
+            // by a completed call may be reachable again
+            let mut cseeds = vec![seed_empty_old(), seed_gc_ready(), seed_two_files(), seed_future()];
+            cseeds.extend(gc_spill_seeds().into_iter().step_by(if q { 3 } else { 1 }));
+            let cprofiles = vec![prof("GC seeds x A_write (crash)", cseeds, a_write(), if TINY { if q { 2 } else { 3 } } else if q { 1 } else { 2 })];
+            let ccfgs: Vec<CrashCfg> = seeds_hash.iter().map(|(hs, _)| CrashCfg {
+                property: "C04", oracle: Oracle::C04, policy: PolicyCfg::Default, hash_seed: *hs, power_loss: false, second_crash: true, cont_struct: 1, cont_other: if q { 0 } else { 1 }, initial_open: false,
+            }).collect();
+            run_crash(part, cprofiles, ccfgs);
+            part.rule = "SEQ part: every op sequence of the stated depth after seeds in which a queue is empty/idle while its files are rolled over and deleted; model-free monitor per queue incarnation: every assigned position exceeds every position appended or truncated-to before, automatic positions continue exactly from it, also after Reopen and in the final Reopen + append on every queue. CRASH part: every crash point of every history from the GC seeds (both orders of GC position entries, second crash in recovery): after recovery every queue created by a completed call exists and its last position is not below the highest position appended or truncated-to by completed calls; continuation appends conform".into();
             part.require_outcomes(&["reopened", "appended", "truncated-n"]);
         }
         "C06" => {
@@ -239,22 +258,25 @@ pub fn run(part: &mut Part) {
             let mut seeds = vec![seed_ab(), seed_two_files(), seed_gc_ready(), seed_empty_old(), seed_recreated()];
             seeds.extend(cursor_seeds(&[0, 3], &[0, 6, 7, 8, 19, 34]));
             seeds.extend(gc_spill_seeds());
+            let mut aw = a_write();
+            aw.push(Op::app(QA, Pos::Auto, Sz::XL));
             let profiles = if TINY {
                 vec![
-                    prof("empty x A_write", vec![seed_empty()], a_write(), if q { 3 } else { 4 }),
-                    prof("seeds x A_write", seeds, a_write(), if q { 2 } else { 3 }),
+                    prof("empty x (A_write + XL)", vec![seed_empty()], aw.clone(), if q { 3 } else { 4 }),
+                    prof("seeds x (A_write + XL)", seeds, aw, if q { 2 } else { 3 }),
                 ]
             } else {
                 let mut s = vec![seed_empty()];
                 s.extend(seeds);
-                vec![prof("empty+seeds x A_write", s, a_write(), if q { 1 } else { 2 })]
+                vec![prof("empty+seeds x (A_write + XL)", s, aw, if q { 1 } else { 2 })]
             };
             let hs = probe_hash_seeds(&["a", "b", "f"], if q { 1 } else { 2 });
-            let cfgs: Vec<CrashCfg> = hs.iter().map(|(h, _)| CrashCfg {
+            let policies: Vec<PolicyCfg> = if q { vec![PolicyCfg::Default] } else { vec![PolicyCfg::Default, PolicyCfg::AlwaysFsync, PolicyCfg::DelayExpiredFlush] };
+            let cfgs: Vec<CrashCfg> = hs.iter().flat_map(|(h, _)| policies.iter().map(move |pol| (*h, *pol))).map(|(h, pol)| CrashCfg {
                 property: "C02",
                 oracle: Oracle::C02,
-                policy: PolicyCfg::Default,
-                hash_seed: *h,
+                policy: pol,
+                hash_seed: h,
                 power_loss: false,
                 second_crash: true,
                 cont_struct: 2,
